@@ -46,7 +46,9 @@ func lifeCycle(t int) int {
 	defer r.Close()
 	first := &auparse.AuditMessage{RecordType: auparse.AuditMessageType(t), Sequence: 7, Timestamp: time.Unix(1, 0)}
 	r.PushMessage(first)
-	alone := func() bool { return len(s.groups) == 1 && len(s.groups[0]) == 1 && s.groups[0][0] == first && s.lost == 0 }
+	alone := func() bool {
+		return len(s.groups) == 1 && len(s.groups[0]) == 1 && s.groups[0][0] == first && s.lost == 0
+	}
 	if len(s.groups) != 0 || s.lost != 0 {
 		if alone() {
 			return 0
